@@ -62,6 +62,9 @@ def run(ctx):
 
     # an external writer hits a file at a precise point of a cached run; the next cached run must still be sound
     midrun_rt.midrun_overwrite_check(ctx, ctx.pick(30, 400))
+    # a file system that returns short reads before EOF; a transform that failed in an earlier cached run
+    midrun_rt.short_read_check(ctx, ctx.pick(24, 300))
+    midrun_rt.failing_transform_cache_check(ctx, ctx.pick(12, 120))
 
     # transform dimension: `$IN` temp copies with equal base names in several directories on a multi-threaded sequential pool,
     # and programs that fail (exit status / killed by a signal, with and without partial output) for some of the files
